@@ -23,12 +23,33 @@ BUDGET = {'quick': (150, 30.0), 'thorough': (4000, 240.0)}
 REQUIRED_REACH = {'*': ['accepted', 'rejected_capacity', 'decisions_with_shared_limited_trait', 'updates_decided', 'rejected_trait_limit']}
 
 TRAITS = ['ssd', 'gpu', 'big', 'x86']
-UNIT = {'K': 1024, 'M': 1024 ** 2, 'G': 1024 ** 3}
+UNIT = {'K': 1024, 'M': 1024 ** 2, 'G': 1024 ** 3, 'T': 1024 ** 4}
+DECIMAL = {'K': 1000, 'M': 1000 ** 2, 'G': 1000 ** 3, 'T': 1000 ** 4}
 
 
 def own_bytes(s):
-    s = s.strip()
-    return int(s[:-1]) * UNIT[s[-1].upper()]
+    """Own reading of a size: <n>[KMGT] binary, <n>[KMGT]B decimal, any case, bare number = bytes."""
+    s = s.strip().upper()
+    if s[-1] == 'B' and len(s) > 1 and s[-2] in DECIMAL:
+        return int(s[:-2]) * DECIMAL[s[-2]]
+    if s[-1] in UNIT:
+        return int(s[:-1]) * UNIT[s[-1]]
+    return int(s.rstrip('B'))
+
+
+def spell_capacity(rng, mb):
+    """Partition capacities and trait limits are free-form strings in the directory (not bound by the
+    reservation schema): decimal units in either case, terabytes, plain bytes."""
+    c = rng.randrange(10)
+    if c == 0:
+        return '%d%s' % (mb, rng.choice(['MB', 'Mb', 'mb']))           # decimal megabytes
+    if c == 1 and mb >= 1024:
+        return '%d%s' % (mb // 1024, rng.choice(['GB', 'Gb', 'gb']))   # decimal gigabytes
+    if c == 2 and mb >= 2048:
+        return '%d%s' % (max(1, mb // (1024 * 1024)) if mb >= 1024 * 1024 else 1, rng.choice(['T', 't', 'TB', 'tb']))
+    if c == 3:
+        return '%d' % (mb * 1024 * 1024)                               # bytes
+    return spell_bytes(rng, mb)
 
 
 def own_cpu(s):
@@ -77,15 +98,15 @@ def run(ctx):
             limits = []
             for t in rng.sample(TRAITS, rng.choice([0, 1, 2, 3, 4] if roomy else [0, 0, 1, 2, 3])):
                 limits.append(dict(trait=t, cpu='%d%%' % rng.choice([0, 100, 200, 500, 800]),
-                                   memory=spell_bytes(rng, rng.choice([0, 512, 2048, 8192])),
-                                   disk=spell_bytes(rng, rng.choice([0, 512, 2048, 8192]))))
-            rec = dict(cpu='%d%%' % cap['cpu'], memory=spell_bytes(rng, cap['memory']),
-                       disk=spell_bytes(rng, cap['disk']), limits=limits)
+                                   memory=spell_capacity(rng, rng.choice([0, 512, 2048, 8192])),
+                                   disk=spell_capacity(rng, rng.choice([0, 512, 2048, 8192]))))
+            rec = dict(cpu='%d%%' % cap['cpu'], memory=spell_capacity(rng, cap['memory']),
+                       disk=spell_capacity(rng, cap['disk']), limits=limits)
             if (cell, p) in pcap:
                 be.partition().replace([p, cell], rec)
             else:
                 be.partition().create([p, cell], rec)
-            pcap[(cell, p)] = dict(cpu=cap['cpu'], memory=cap['memory'] * UNIT['M'], disk=cap['disk'] * UNIT['M'],
+            pcap[(cell, p)] = dict(cpu=cap['cpu'], memory=own_bytes(rec['memory']), disk=own_bytes(rec['disk']),
                                    limits={l['trait']: dict(cpu=own_cpu(l['cpu']), memory=own_bytes(l['memory']),
                                                             disk=own_bytes(l['disk'])) for l in limits})
 
@@ -95,7 +116,7 @@ def run(ctx):
                     continue            # no partition record: zero capacity
                 define_partition(cell, p)
         mirror = {}      # (alloc, cell) -> dict(cpu, memory, disk, partition, traits)
-        allocs = [rng.choice(['t%d/a%d', 'T%d/Alloc%d']) % (rng.randint(0, 1), i) for i in range(rng.randint(2, 5))]
+        allocs = [rng.choice(['t%d/a%d', 'T%d/Alloc%d', 't%d:sub/a%d', 'top:t%d:x/a%d']) % (rng.randint(0, 1), i) for i in range(rng.randint(2, 5))]
         kinds = []
         nontrivial = False
         for step in range(rng.randint(10, 40)):
